@@ -95,6 +95,18 @@ CHECKS = {
         "can be Call.func or lie on the path to it).",
         "DESIGN.md 4/C09",
     ),
+    "C10": (
+        "exploration",
+        "metamorphic property-based testing: filter-while-reading vs filter-afterwards over five reader adapters; "
+        "purity / order-independence of match()",
+        "For generated record sequences written with each adapter's own writer and grammar-generated selectors (as "
+        "text, Selector and CompiledSelector objects) the records yielded with the selector must equal - same deep "
+        "observations, same order, same terminating exception type - the post-filter of a selector-less read; "
+        "matching must not change the record, must be repeatable, and a reused selector object must give the results "
+        "of fresh selectors over the sequence, its reverse and a generated permutation.",
+        "Selector semantics themselves are C07/C08; Avro and CSV runs use a single descriptor.",
+        "DESIGN.md 4/C10",
+    ),
 }
 
 NOT_APPLICABLE = {}
